@@ -20,19 +20,20 @@
         File.auto_claim_comments establishes: monitor C14:unowned-after-parse; not proved because it needs the
         whole-tree traversal). Does not speak about auto_claim_comments of a sub-model while comments elsewhere
         are unclaimed.
-     C14_rule_local_partial : the attribution rule for ONE surrounding claim, both directions: the call returns
-        exactly claim_spec = "the block comment exactly one line break away (only placeholders otherwise), of the
-        model's indentation class, if not yet claimed" (+ _sound/_complete forms with the resulting document).
+     C14_rule_single_claim is complete for one surrounding claim (declarative iff on the token list; the
+        _sound/_complete forms add the resulting document).  The rule over whole layouts is NOT proved.
         Missing: attrib_spec over whole line layouts (priority leading > trailing > standalone across models, and
         the standalone fall-through) - evaluated by the monitor `rule_check` on every generated layout, excluding
         the known-finding layout (transaction with meta but no postings, C14:rule:empty-postings-claim-first). *)
 From AB Require Import Prelude Comments CommentsProofs CommentsOwn CommentsRestore.
 
-Theorem C14_unique_step : forall st o, Inv st -> op_ok st o = true -> Inv (cstep st o).
-Proof. exact cstep_inv. Qed.
+(* eop = the six comment calls + node-level assignment of a comment (x.raw_leading_comment = c, insertion into a
+   *_with_comments list: BlockComment.reattach sets the flag, the slot references the comment) *)
+Theorem C14_unique_step : forall st o, Inv st -> eop_ok st o = true -> Inv (estep st o).
+Proof. exact estep_inv. Qed.
 
-Theorem C14_unique_history : forall ops st, Inv st -> hist_ok ops st = true -> Inv (fold_left cstep ops st).
-Proof. exact chistory_inv. Qed.
+Theorem C14_unique_history : forall ops st, Inv st -> ehist_ok ops st = true -> Inv (fold_left estep ops st).
+Proof. exact ehistory_inv. Qed.
 
 Theorem C14_inv_b_sound : forall st, inv_b st = true -> Inv st.
 Proof. exact inv_b_ok. Qed.
@@ -54,10 +55,14 @@ Theorem C14_unclaim_claim_interleaving_partial : forall d tb r items flt un kept
   (forall c, count_z c (comments_of its) = count_z c (old_comments items)) /\ Permutation.Permutation d2 d.
 Proof. exact inter_unclaim_claim. Qed.
 
-Theorem C14_rule_local_partial : forall d start bw ig ind,
-  NoDup (ids d) -> walk d start bw <> None ->
-  fst (claim_comment None d start bw ig ind) = claim_spec d start bw ig ind.
-Proof. exact claim_comment_is_spec. Qed.
+(* the rule for ONE surrounding claim, declaratively on the token list: the call returns comment i exactly when
+   the store reads  pre ++ model_token :: g1 ++ [newline] ++ g2 ++ [comment] ++ post  (mirrored for a leading
+   claim) with g1, g2 placeholders only, the comment unclaimed and of the model's indentation class *)
+Theorem C14_rule_single_claim : forall d start bw ig ind i,
+  NoDup (ids d) ->
+  (fst (claim_comment None d start bw ig ind) = Ok (Some i) <->
+   exists c, t_id c = i /\ adjacent_decl d start bw ind c).
+Proof. exact rule_single_claim. Qed.
 
 Theorem C14_idempotent_partial : forall ops st,
   Inv st -> all_claimed (fst st) -> hist_auto_ok ops st = true ->
